@@ -12,7 +12,7 @@ from vlib import common, coopsched, progmc
 LEVEL = "exploration"
 
 
-def run_real(prog, clock, end=progmc.END):
+def run_real(prog, clock, end=progmc.END, driver="start"):
     """execute prog on the real simulator; returns observation dict"""
     from pydsol.core.experiment import SingleReplication
     simc, T = progmc.time_types()[clock]
@@ -23,7 +23,13 @@ def run_real(prog, clock, end=progmc.END):
         sim = simc("s")
         m = M(sim, prog, T, base=base)
         sim.initialize(m, SingleReplication("r", base, T(0), T(end)))
-        sim.start()
+        if driver == "start":
+            sim.start()
+        elif driver == "upto-beyond":
+            # an exclusive bound beyond the end: the horizon is the end
+            sim.run_up_to(base + T(end + 1))
+        else:
+            sim.run_up_to_including(base + T(end))
         s.wait_quiescent()
         out = dict(trace=list(m.trace),
                    clock=float(sim.simulator_time - base),
@@ -41,10 +47,10 @@ def run_real(prog, clock, end=progmc.END):
     return r.value
 
 
-def judge(prog, clock, end=progmc.END):
+def judge(prog, clock, end=progmc.END, driver="start"):
     """returns list of (kind, detail) disagreements"""
     try:
-        got = run_real(prog, clock, end)
+        got = run_real(prog, clock, end, driver)
     except common.HarnessError:
         raise
     except Exception as ex:  # noqa  (exception escaping into the driver)
@@ -60,10 +66,14 @@ def judge(prog, clock, end=progmc.END):
         bad.append(("runaway-event-loop", got["trace"][:12]))
     if got["trace"] != exp:
         bad.append(("trace", {"got": got["trace"], "expected": exp}))
-    if got["clock"] != float(end):
+    # (clock and state after a bound beyond the end are not documented)
+    if got["clock"] != float(end) and driver != "upto-beyond":
         bad.append(("final-clock", got["clock"]))
-    if (got["state"], got["rstate"]) != ("ENDED", "ENDED"):
+    if (got["state"], got["rstate"]) != ("ENDED", "ENDED") and \
+            driver != "upto-beyond":
         bad.append(("final-state", (got["state"], got["rstate"])))
+    if driver != "start":
+        bad = [(k + ":" + driver, d) for k, d in bad]
     for rec in got["ill"]:
         if not progmc.illegal_ok(rec):
             bad.append(("illegal-%s" % rec[0], rec))
@@ -108,6 +118,13 @@ def worker(task):
                         sample = {"clock": clock,
                                   "program": progmc.prog_to_json(prog),
                                   "trace": got["trace"]}
+                if not var:
+                    # the same horizon reached by the bounded commands
+                    for drv in ("upto-beyond", "uptoi-end"):
+                        n += 1
+                        b2, _ = judge(prog, clock, driver=drv)
+                        bad = bad + [(kd, "driver %s: %s" % (drv, d))
+                                     for kd, d in b2]
                 for kind, detail in bad:
                     viols.append(("C02:%s:%s" % (clock, kind),
                                   "%s clock, program %s: %s %s" % (
@@ -217,7 +234,9 @@ def run(ctx):
         "actions per handler, delays {0,1,2}, priorities {1,5,10}, kinds "
         "now/rel/abs rotated by position), each alone and with every single "
         "cancel action (who x target x before/after)%s, on the float, int and "
-        "Duration simulators; replication [0,%d] so chains cross the horizon. "
+        "Duration simulators; replication [0,%d] so chains cross the horizon; "
+        "every cancel-free tree also under run_up_to(end+1) and "
+        "run_up_to_including(end). "
         "Plus wide programs: construct_model schedules M distinct-time events "
         "(all permutations for M<=6/7, the multiplicative family beyond, M up "
         "to 15/23) and the earliest event cancels each target j. "
@@ -237,5 +256,8 @@ def run(ctx):
 def replay(data):
     coopsched.install()
     prog = progmc.prog_from_json(data["program"])
-    bad, got = judge(prog, data["clock"], data.get("end", progmc.END))
+    end = data.get("end", progmc.END)
+    bad, got = judge(prog, data["clock"], end)
+    for drv in ("upto-beyond", "uptoi-end"):
+        bad = bad + judge(prog, data["clock"], end, drv)[0]
     return bad or None
